@@ -12,7 +12,7 @@ import (
 // Hand-written histories that run first (cases 0..nCorpus-1): corner cases a random history
 // reaches only now and then.
 
-const nCorpus = 2
+const nCorpus = 3
 
 func big64(n int64) *big.Int { return big.NewInt(n) }
 
@@ -115,6 +115,14 @@ func corpus0(w *world, o *hx.Out, k int) {
 	s.block(&txSpec{notary: true, nkeys: 0, signers: []util.Uint160{u(1)}, sysFee: gasUnit / 4, exhaust: 1})
 	// and u0's deposit one whose fees leave one datoshi
 	s.block(&txSpec{notary: true, nkeys: 1, signers: []util.Uint160{u(0)}, sysFee: gasUnit / 4, exhaust: 2})
+	// u0's deposit has expired: re-locking it to the block being persisted is refused, to the next one accepted;
+	// a top-up by somebody else keeps the till, a withdrawal one block before the new till is refused
+	hh := w.bc.BlockHeight()
+	s.block(s.tx([]util.Uint160{u(0)}, &call{kind: kLock, src: u(0), till: hh + 1}),
+		s.tx([]util.Uint160{u(0)}, &call{kind: kLock, src: u(0), till: hh + 2}))
+	uu0 := u(0)
+	s.block(s.tx([]util.Uint160{u(2)}, &call{kind: kTransfer, src: u(2), dst: w.notaryH, amt: big64(1), data: dNotary, till: hh + 9, dto: &uu0}),
+		s.tx([]util.Uint160{u(0)}, &call{kind: kWithdraw, src: u(0), dstNil: true}))
 	s.block(s.tx([]util.Uint160{u(0)}, &call{kind: kWithdraw, src: u(0), dst: w.nopay}))      // faults
 	s.block(s.tx([]util.Uint160{u(0)}, &call{kind: kWithdraw, src: u(0), dst: w.wallets[0]})) // succeeds
 	s.block(s.tx([]util.Uint160{u(0)}, &call{kind: kWithdraw, src: u(0), dstNil: true}))      // nothing left: false
@@ -151,4 +159,100 @@ func corpus1(w *world, o *hx.Out, k int) {
 		nested: &call{kind: kVote, src: wl, pub: cx.PublicKey()}}))
 	s.block()
 	s.block(s.tx([]util.Uint160{u(1)}, &call{kind: kTransfer, neo: true, src: wl, dst: u(1), amt: big64(1_000_006), via: &wl}))
+}
+
+// corpus2: the boundaries of the election. Committee of 3 (standby = candidates 0..2), 2 validators, two extra
+// candidate keys. Turnout one NEO below / exactly at 20 % of the supply, vote ties (with and without votes),
+// exactly as many candidates as seats / one short, the top candidate blocked and unblocked by the committee,
+// votes cast in the last and in the first block of an epoch, the elected committee signing a committee call.
+func corpus2(w *world, o *hx.Out, k int) {
+	s := &scen{w, o, k}
+	u := func(i int) util.Uint160 { return w.users[i].ScriptHash() }
+	val := w.valSigner.ScriptHash()
+	neoOf := func(h util.Uint160) int64 {
+		if a := w.dump().neo[h]; a != nil {
+			return a.bal.Int64()
+		}
+		return 0
+	}
+	// set the NEO balance of a user exactly (from / to the genesis holder)
+	setNeo := func(i int, n int64) *txSpec {
+		have := neoOf(u(i))
+		switch {
+		case have < n:
+			return s.tx([]util.Uint160{val}, xferNeo(val, u(i), big64(n-have)))
+		case have > n:
+			return s.tx([]util.Uint160{u(i)}, xferNeo(u(i), val, big64(have-n)))
+		}
+		return s.tx([]util.Uint160{val}, xferNeo(val, val, big64(0)))
+	}
+	toEpochEnd := func() { // add empty blocks until the next block starts an epoch
+		for (w.bc.BlockHeight()+1)%uint32(w.C) != 0 {
+			s.block()
+		}
+	}
+	acc := func(i int) util.Uint160 { return w.cands[i].GetScriptHash() }
+	pub := func(i int) *keys.PublicKey { return w.cands[i].PublicKey() }
+	s.block(setNeo(0, 19_999_999), setNeo(1, 1), setNeo(2, 500), setNeo(3, 500))
+	var regs []*txSpec
+	for i := range w.cands {
+		regs = append(regs, s.tx([]util.Uint160{acc(i)}, &call{kind: kRegister, pub: pub(i)}))
+	}
+	s.block(regs...)
+	// 19 999 999 NEO vote: one below the threshold -> standby committee
+	s.block(s.tx([]util.Uint160{u(0)}, vote(u(0), pub(3))))
+	toEpochEnd()
+	s.block()
+	// exactly 20 000 000: elected; candidates 3 (19 999 999), 4 (1), then the lowest key of the three with 0 votes
+	s.block(s.tx([]util.Uint160{u(1)}, vote(u(1), pub(4))))
+	toEpochEnd()
+	s.block()
+	// a committee call signed by the elected committee
+	com := w.committeeSigner()
+	w.signer[com.ScriptHash()] = com
+	s.block(s.tx([]util.Uint160{val, com.ScriptHash()}, &call{kind: kSetGpb, amt: big64(3 * gasUnit)}))
+	// tie with votes: u2 and u3 (500 each) vote for candidates 0 and 1
+	s.block(s.tx([]util.Uint160{u(2)}, vote(u(2), pub(0))), s.tx([]util.Uint160{u(3)}, vote(u(3), pub(1))))
+	toEpochEnd()
+	s.block()
+	// the vote that keeps the turnout at the threshold is withdrawn in the LAST block of an epoch ...
+	toEpochEnd()
+	for (w.bc.BlockHeight()+2)%uint32(w.C) != 0 {
+		s.block()
+	}
+	s.block(s.tx([]util.Uint160{u(1)}, vote(u(1), nil)))
+	// ... and cast again in the FIRST block of the next one (gas-per-vote of that block reads the storage votes)
+	s.block(s.tx([]util.Uint160{u(1)}, vote(u(1), pub(4))))
+	toEpochEnd()
+	s.block()
+	// exactly as many candidates as seats: two of the five unregister (one voted, one not)
+	s.block(s.tx([]util.Uint160{acc(2)}, &call{kind: kUnregister, pub: pub(2)}),
+		s.tx([]util.Uint160{acc(1)}, &call{kind: kUnregister, pub: pub(1)}))
+	toEpochEnd()
+	s.block()
+	// one short: standby again although the turnout is fine
+	s.block(s.tx([]util.Uint160{acc(0)}, &call{kind: kUnregister, pub: pub(0)}))
+	toEpochEnd()
+	s.block()
+	// everybody back; the committee in office blocks the account of the top candidate, later unblocks it
+	s.block(s.tx([]util.Uint160{acc(0)}, &call{kind: kRegister, pub: pub(0)}),
+		s.tx([]util.Uint160{acc(1)}, &call{kind: kRegister, pub: pub(1)}),
+		s.tx([]util.Uint160{acc(2)}, &call{kind: kRegister, pub: pub(2)}))
+	toEpochEnd()
+	s.block()
+	com = w.committeeSigner()
+	w.signer[com.ScriptHash()] = com
+	s.block(s.tx([]util.Uint160{val, com.ScriptHash()}, &call{kind: kBlock, src: acc(3)}))
+	toEpochEnd()
+	s.block()
+	com = w.committeeSigner()
+	w.signer[com.ScriptHash()] = com
+	// nothing but the unblocking happens in this epoch: candidate 3 (no votes left: the blocking revoked nothing of
+	// its voters', but u0 voted for it) is eligible again
+	s.block(s.tx([]util.Uint160{val, com.ScriptHash()}, &call{kind: kUnblock, src: acc(3)}))
+	toEpochEnd()
+	s.block()
+	toEpochEnd()
+	s.block()
+	s.block(s.tx([]util.Uint160{u(0)}, xferNeo(u(0), u(0), big64(0)))) // claim
 }
